@@ -38,6 +38,22 @@ fn rt_bincode_reader<T: Serialize + DeserializeOwned>(x: &T) -> Result<T, String
 }
 
 /// round-trips `x` through both formats; `same` decides equality (and "still works")
+fn cloned<T: Clone>(cx: &mut Ctx, ty: &str, x: &T, same: &dyn Fn(&T, &T) -> bool, detail: &dyn Fn() -> serde_json::Value) {
+    // a clone is the cheapest "encoding": it must reproduce an equal object that still works, like every other round trip
+    {
+        cx.eval();
+        match guard(&format!("clone {}", ty), || x.clone()) {
+            Ok(y) => {
+                if !same(x, &y) || !same(&y, x) {
+                    cx.violation(&format!("C16|{}|clone_not_equal", ty), detail());
+                }
+            }
+            Err(p) => cx.violation(&format!("C16|{}|clone_panics", ty), json!({"panic":p.msg,"detail":detail()})),
+        }
+        cx.cover("serde_roundtrip", &format!("{}|clone", ty));
+    }
+}
+
 fn both<T: Serialize + DeserializeOwned>(cx: &mut Ctx, ty: &str, x: &T, same: &dyn Fn(&T, &T) -> bool, detail: &dyn Fn() -> serde_json::Value) {
     for (fmt, f) in [("json", rt_json::<T> as fn(&T) -> Result<T, String>), ("bincode", rt_bincode::<T> as fn(&T) -> Result<T, String>),
                      ("json_reader", rt_json_reader::<T> as fn(&T) -> Result<T, String>), ("bincode_reader", rt_bincode_reader::<T> as fn(&T) -> Result<T, String>)] {
@@ -223,8 +239,10 @@ pub fn run(cx: &mut Ctx) {
                 let (tag, data) = b.clone().into_parts();
                 expect(cx, "C16|DryocSecretBox|from_parts(into_parts)_not_equal", DryocSecretBox::from_parts(tag, data) == b, d);
                 both(cx, "DryocSecretBox<Stack,Vec>", &b, &|x, y| x == y && y.decrypt_to_vec(&nonce, &key).ok().as_deref() == Some(&msg[..]), &d);
+                cloned(cx, "DryocSecretBox<Stack,Vec>", &b, &|x, y| x == y && y.decrypt_to_vec(&nonce, &key).ok().as_deref() == Some(&msg[..]), &d);
                 let bv: DryocSecretBox<Vec<u8>, Vec<u8>> = DryocSecretBox::encrypt(&msg, &nonce, &key);
                 both(cx, "DryocSecretBox<Vec,Vec>", &bv, &|x, y| x == y && y.decrypt::<Vec<u8>, _, _>(&nonce, &key).ok().as_deref() == Some(&msg[..]), &d);
+                cloned(cx, "DryocSecretBox<Vec,Vec>", &bv, &|x, y| x == y && y.decrypt::<Vec<u8>, _, _>(&nonce, &key).ok().as_deref() == Some(&msg[..]), &d);
                 expect_eq(cx, "C16|DryocSecretBox|into_vec_differs_from_to_bytes", &dryoc::dryocsecretbox::VecBox::encrypt_to_vecbox(&msg, &nonce, &key).into_vec(), &wire, d);
                 // the same box with spare capacity behind its payload (a Vec's capacity is hidden state: boxes built from
                 // parts or filled element by element by a deserialiser have it, freshly encrypted ones do not)
@@ -265,6 +283,7 @@ pub fn run(cx: &mut Ctx) {
                 let (tag, data, epk) = b.clone().into_parts();
                 expect(cx, "C16|DryocBox|from_parts(into_parts)_not_equal", DryocBox::from_parts(tag, data, epk) == b, d);
                 both(cx, "DryocBox<Stack,Stack,Vec>", &b, &|x, y| x == y && open(y).as_deref() == Some(&msg[..]), &d);
+                cloned(cx, "DryocBox<Stack,Stack,Vec>", &b, &|x, y| x == y && open(y).as_deref() == Some(&msg[..]), &d);
                 for spare in [1usize, 16, 33] {
                     let (tag, data, epk) = b.clone().into_parts();
                     let mut roomy = Vec::with_capacity(data.len() + spare);
@@ -288,8 +307,34 @@ pub fn run(cx: &mut Ctx) {
                     Err(e) => cx.violation("C16|DryocBox(sealed)|from_sealed_bytes(to_bytes)_fails", json!({"err":e.to_string(),"payload_len":len})),
                 }
                 both(cx, "DryocBox(sealed)<Stack,Stack,Vec>", &s, &|x, y| x == y && y.unseal_to_vec(&kp).ok().as_deref() == Some(&msg[..]), &d);
+                cloned(cx, "DryocBox(sealed)<Stack,Stack,Vec>", &s, &|x, y| x == y && y.unseal_to_vec(&kp).ok().as_deref() == Some(&msg[..]), &d);
                 let (tag, data, epk) = s.clone().into_parts();
                 expect(cx, "C16|DryocBox(sealed)|from_parts(into_parts)_not_equal", DryocBox::from_parts(tag, data, epk) == s, d);
+                // equality is an equivalence that tells different objects apart: reflexive, symmetric, and false for the plain
+                // twin of a sealed box (same tag and payload, no ephemeral key) and for one changed byte anywhere
+                {
+                    let (tag, data, epk) = s.clone().into_parts();
+                    let twin: dryoc::dryocbox::VecBox = DryocBox::from_parts(tag.clone(), data.clone(), None);
+                    expect(cx, "C16|DryocBox|eq_not_reflexive(sealed)", s == s.clone(), d);
+                    expect(cx, "C16|DryocBox|sealed_box_equals_its_plain_twin", !(s == twin) && !(twin == s), d);
+                    let mut d2 = data.clone();
+                    if !d2.is_empty() {
+                        d2[0] ^= 1;
+                        let other: dryoc::dryocbox::VecBox = DryocBox::from_parts(tag.clone(), d2, epk.clone());
+                        expect(cx, "C16|DryocBox|boxes_with_different_payload_compare_equal", !(s == other) && !(other == s), d);
+                    }
+                    if let Some(e) = &epk {
+                        let mut e2 = e.clone();
+                        e2.as_mut_slice()[31] ^= 0x40;
+                        let other: dryoc::dryocbox::VecBox = DryocBox::from_parts(tag.clone(), data.clone(), Some(e2));
+                        expect(cx, "C16|DryocBox|boxes_with_different_ephemeral_key_compare_equal", !(s == other) && !(other == s), d);
+                    }
+                    let mut t2 = tag.clone();
+                    t2.as_mut_slice()[0] ^= 1;
+                    let other: dryoc::dryocbox::VecBox = DryocBox::from_parts(t2, data.clone(), epk.clone());
+                    expect(cx, "C16|DryocBox|boxes_with_different_tag_compare_equal", !(s == other) && !(other == s), d);
+                    cx.cover("negative_equality", "DryocBox");
+                }
             }
             // ---- SignedMessage
             {
@@ -310,24 +355,32 @@ pub fn run(cx: &mut Ctx) {
                 let (sig, m) = sm.clone().into_parts();
                 expect(cx, "C16|SignedMessage|from_parts(into_parts)_not_equal", SignedMessage::from_parts(sig, m) == sm, d);
                 both(cx, "SignedMessage<Stack,Vec>", &sm, &|x, y| x == y && y.verify(&skp.public_key).is_ok(), &d);
+                cloned(cx, "SignedMessage<Stack,Vec>", &sm, &|x, y| x == y && y.verify(&skp.public_key).is_ok(), &d);
                 both(cx, "SigningKeyPair<Stack,Stack>", &skp, &|x, y| x == y, &d);
+                cloned(cx, "SigningKeyPair<Stack,Stack>", &skp, &|x, y| x == y, &d);
                 let skv: SigningKeyPair<Vec<u8>, Vec<u8>> = SigningKeyPair { public_key: skp.public_key.to_vec(), secret_key: skp.secret_key.to_vec() };
                 both(cx, "SigningKeyPair<Vec,Vec>", &skv, &|x, y| x == y, &d);
+                cloned(cx, "SigningKeyPair<Vec,Vec>", &skv, &|x, y| x == y, &d);
             }
             // ---- KeyPair, Session, Kdf, PwHash
             if len % 8 == 0 {
                 let kp: KeyPair<StackByteArray<32>, StackByteArray<32>> = KeyPair::from_slices(&apk, &ask).unwrap();
                 both(cx, "KeyPair<Stack,Stack>", &kp, &|x, y| x == y, &d);
+                cloned(cx, "KeyPair<Stack,Stack>", &kp, &|x, y| x == y, &d);
                 let kpv: KeyPair<Vec<u8>, Vec<u8>> = KeyPair { public_key: apk.to_vec(), secret_key: ask.to_vec() };
                 both(cx, "KeyPair<Vec,Vec>", &kpv, &|x, y| x == y, &d);
+                cloned(cx, "KeyPair<Vec,Vec>", &kpv, &|x, y| x == y, &d);
                 expect(cx, "C16|KeyPair|from_slices_roundtrip", KeyPair::<StackByteArray<32>, StackByteArray<32>>::from_slices(kp.public_key.as_slice(), kp.secret_key.as_slice()).map(|k| k == kp).unwrap_or(false), d);
                 let bkp: KeyPair<StackByteArray<32>, StackByteArray<32>> = KeyPair::from_slices(&bpk, &bsk).unwrap();
                 let sess: Session<StackByteArray<32>> = Session::new_client(&kp, &bkp.public_key).unwrap();
                 both(cx, "Session<Stack>", &sess, &|x, y| x.rx_as_slice() == y.rx_as_slice() && x.tx_as_slice() == y.tx_as_slice(), &d);
+                cloned(cx, "Session<Stack>", &sess, &|x, y| x.rx_as_slice() == y.rx_as_slice() && x.tx_as_slice() == y.tx_as_slice(), &d);
                 let sessv: Session<Vec<u8>> = Session::new_server(&bkp, &kp.public_key).unwrap();
                 both(cx, "Session<Vec>", &sessv, &|x, y| x.rx_as_slice() == y.rx_as_slice() && x.tx_as_slice() == y.tx_as_slice() && y.rx_as_slice() == sess.tx_as_slice(), &d);
+                cloned(cx, "Session<Vec>", &sessv, &|x, y| x.rx_as_slice() == y.rx_as_slice() && x.tx_as_slice() == y.tx_as_slice() && y.rx_as_slice() == sess.tx_as_slice(), &d);
                 let kdf: Kdf<StackByteArray<32>, StackByteArray<8>> = Kdf::from_parts(StackByteArray::from(key), StackByteArray::from(rng.arr::<8>()));
                 both(cx, "Kdf<Stack,Stack>", &kdf, &|x, y| x.derive_subkey_to_vec(7).ok() == y.derive_subkey_to_vec(7).ok() && x.clone().into_parts() == y.clone().into_parts(), &d);
+                cloned(cx, "Kdf<Stack,Stack>", &kdf, &|x, y| x.derive_subkey_to_vec(7).ok() == y.derive_subkey_to_vec(7).ok() && x.clone().into_parts() == y.clone().into_parts(), &d);
                 let (k2, c2) = kdf.clone().into_parts();
                 expect(cx, "C16|Kdf|from_parts(into_parts)_not_equal", Kdf::from_parts(k2, c2).derive_subkey_to_vec(1).ok() == kdf.derive_subkey_to_vec(1).ok(), d);
                 // memory limits that are not a whole number of KiB as well (the string carries KiB)
@@ -335,6 +388,7 @@ pub fn run(cx: &mut Ctx) {
                 let cfg = Config::interactive().with_opslimit(1 + (len % 3) as u64).with_memlimit(memlimit).with_hash_length(16 + len % 100).with_salt_length(8 + len % 50);
                 let ph: PwHash<Vec<u8>, Vec<u8>> = PwHash::hash(&msg, cfg).unwrap();
                 both(cx, "PwHash<Vec,Vec>", &ph, &|x, y| x.clone().into_parts().0 == y.clone().into_parts().0 && x.clone().into_parts().1 == y.clone().into_parts().1 && x.to_string() == y.to_string() && y.verify(&msg).is_ok(), &d);
+                cloned(cx, "PwHash<Vec,Vec>", &ph, &|x, y| x.clone().into_parts().0 == y.clone().into_parts().0 && x.clone().into_parts().1 == y.clone().into_parts().1 && x.to_string() == y.to_string() && y.verify(&msg).is_ok(), &d);
                 let (h, s, c) = ph.clone().into_parts();
                 expect(cx, "C16|PwHash|from_parts(into_parts)_not_equal", PwHash::from_parts(h, s, c).to_string() == ph.to_string(), d);
                 match PwHash::<Vec<u8>, Vec<u8>>::from_string(&ph.to_string()) {
@@ -495,6 +549,46 @@ mod ni {
                 let lro = HeapBytes::from_slice_into_readonly_locked(&msg).unwrap();
                 expect_eq(cx, "C16|LockedRO<HeapBytes>|bincode_encoding_differs_from_vec", &bincode::serialize(&lro).unwrap(), &bincode::serialize(&hb(&msg)).unwrap(), d);
                 cx.cover("serde_roundtrip", "serialize-only: HeapByteArray, LockedRO<HeapBytes>");
+                // the same value has the same encoding in every container, and what one container family wrote the other
+                // reads back (bincode distinguishes byte strings from tuples / sequences; JSON does not)
+                {
+                    let s32 = StackByteArray::<32>::from(key);
+                    let l32 = HeapByteArray::<32>::from_slice_into_locked(&key).unwrap();
+                    let want_b = bincode::serialize(&s32).unwrap();
+                    expect_eq(cx, "C16|HeapByteArray|bincode_encoding_differs_from_stack", &bincode::serialize(&h32).unwrap(), &want_b, d);
+                    expect_eq(cx, "C16|Locked<HeapByteArray>|bincode_encoding_differs_from_stack", &bincode::serialize(&l32).unwrap(), &want_b, d);
+                    expect_eq(cx, "C16|Locked<HeapByteArray>|json_encoding_differs_from_stack", serde_json::to_string(&l32).unwrap().as_bytes(), serde_json::to_string(&s32).unwrap().as_bytes(), d);
+                    match guard("cross decode", || bincode::deserialize::<Locked<HeapByteArray<32>>>(&want_b)) {
+                        Ok(Ok(v)) => { expect_eq(cx, "C16|Locked<HeapByteArray>|decoded_from_stack_encoding_differs", v.as_slice(), &key, d); }
+                        Ok(Err(e)) => cx.violation("C16|Locked<HeapByteArray>|cannot_decode_stack_encoding", json!({"err":e.to_string()})),
+                        Err(p) => cx.violation("C16|Locked<HeapByteArray>|decode_panics", json!({"panic":p.msg})),
+                    }
+                    match guard("cross decode", || bincode::deserialize::<StackByteArray<32>>(&bincode::serialize(&l32).unwrap())) {
+                        Ok(Ok(v)) => { expect_eq(cx, "C16|StackByteArray|decoded_from_locked_encoding_differs", v.as_slice(), &key, d); }
+                        Ok(Err(e)) => cx.violation("C16|StackByteArray|cannot_decode_locked_encoding", json!({"err":e.to_string()})),
+                        Err(p) => cx.violation("C16|StackByteArray|decode_panics", json!({"panic":p.msg})),
+                    }
+                    // key pairs: stack-encoded, read into locked containers and back
+                    let skp: KeyPair<StackByteArray<32>, StackByteArray<32>> = KeyPair::from_secret_key(StackByteArray::from(key));
+                    let enc = bincode::serialize(&skp).unwrap();
+                    match guard("cross decode keypair", || bincode::deserialize::<KeyPair<Locked<HeapByteArray<32>>, Locked<HeapByteArray<32>>>>(&enc)) {
+                        Ok(Ok(lkp)) => {
+                            expect(cx, "C16|LockedKeyPair|decoded_from_stack_encoding_differs", lkp.public_key.as_slice() == skp.public_key.as_slice() && lkp.secret_key.as_slice() == skp.secret_key.as_slice(), d);
+                            expect_eq(cx, "C16|LockedKeyPair|bincode_encoding_differs_from_stack", &bincode::serialize(&lkp).unwrap(), &enc, d);
+                        }
+                        Ok(Err(e)) => cx.violation("C16|LockedKeyPair|cannot_decode_stack_encoding", json!({"err":e.to_string()})),
+                        Err(p) => cx.violation("C16|LockedKeyPair|decode_panics", json!({"panic":p.msg})),
+                    }
+                    // a Vec-backed secret box read as a locked box
+                    let vb = dryoc::dryocsecretbox::VecBox::encrypt_to_vecbox(&msg, &nonce, &key);
+                    let encb = bincode::serialize(&vb).unwrap();
+                    match guard("cross decode box", || bincode::deserialize::<dryoc::dryocsecretbox::protected::LockedBox>(&encb)) {
+                        Ok(Ok(lb)) => { expect(cx, "C16|LockedBox|decoded_from_vecbox_encoding_does_not_decrypt", lb.decrypt::<Vec<u8>, _, _>(&nonce, &key).ok().as_deref() == Some(&msg[..]), d); }
+                        Ok(Err(e)) => cx.violation("C16|LockedBox|cannot_decode_vecbox_encoding", json!({"err":e.to_string()})),
+                        Err(p) => cx.violation("C16|LockedBox|decode_panics", json!({"panic":p.msg})),
+                    }
+                    cx.cover("serde_roundtrip", "cross-container encodings");
+                }
             }
         }
         if cx.mine(910_001) {
